@@ -53,7 +53,9 @@ def sources(tier, rng):
         for tmpl in ("10 IF A THEN B=%sELSE B=2", "10 PRINT %sEQV 3", "10 PRINT %sEQV%s", "10 IF A THEN PRINT %s*%sELSE PRINT 0",
                      "10 FOR I=1 TO %sSTEP 2", "10 PRINT %sAND 3", "10 PRINT %sOR%s", "10 PRINT %sMOD 3", "10 PRINT %sXOR 1", "10 PRINT %sIMP 1",
                      "10 PRINT %sDX", "10 PRINT %sEX;%sD", "10 IF A=%sTHEN 10", "10 IF A THEN %sELSE %s", "10 ON A GOTO %s,%s:END",
-                     "10 D=%s:E=%sD", "10 PRINT %sE:PRINT %sD:END"):
+                     "10 D=%s:E=%sD", "10 PRINT %sE:PRINT %sD:END",
+                     # the same at the very end of the line with blanks behind it: a dangling exponent letter there is a name
+                     "10 PRINT %sE ", "10 PRINT %sD\t", "10 A=%sE  ", "10 PRINT A;%sE ", "10 PRINT %sE", "10 IF A THEN PRINT %sD "):
             out.append(("glued", tmpl.replace("%s", num)))
             out.append(("glued", tmpl.replace("%s", num).lower()))
     for s in gen_lines.SAMPLE_PROGRAM_LINES:
